@@ -29,3 +29,28 @@ package templater
 //@ at call t.getTemplate#1 assert [header-template] arg(tmplBody) == v && arg(key) == k
 //@ at call tmpl.Execute assert [variables-of-this-shot] arg(a1) == box(vs)
 //@ modifies parts.URL, parts.Body, elems(parts.Headers)
+
+// ---------------------------------------------------------------- the HTML templater: the same discipline as the text templater
+//@ use htmltemplate "html/template"
+
+//@ func NewHTMLTemplater
+//@ props C13 C15
+//@ modifies nothing
+//@ ensures result != nil
+
+//@ func (t *HTMLTemplater) getTemplate
+//@ props C11 C15
+//@ nilsafe
+//@ env [the-cache-holds-templates] pooltype(t.templatesCache, *htmltemplate.Template)
+//@ modifies nothing
+//@ ensures iff(result1 == nil, result0 != nil)
+
+//@ func (t *HTMLTemplater) Apply
+//@ props C11 C15
+//@ nilsafe
+//@ requires parts != nil
+//@ loop 0 invariant tmpl != nil && strBuilder != nil && fresh(strBuilder)
+//@ at call t.getTemplate#0 assert [url-template] arg(tmplBody) == parts.URL && arg(scenarioName) == scenarioName0 && arg(stepName) == stepName0
+//@ at call t.getTemplate#1 assert [header-template] arg(tmplBody) == v && arg(key) == k
+//@ at call tmpl.Execute assert [variables-of-this-shot] arg(a1) == box(vs)
+//@ modifies parts.URL, parts.Body, elems(parts.Headers)
